@@ -90,6 +90,28 @@ pub fn run(ctx: &mut Ctx) -> (&'static str, String, bool) {
                     json!({"variant": name, "wire": hex(&wire)}),
                 ),
             }
+            // the same six bytes from a stream that hands them over in pieces, and written into a writer that takes
+            // them in pieces (the BinRead / BinWrite impls are public and generic over the stream)
+            for max in [1usize, 2, 5] {
+                let mut rd = crate::ioadapt::ChunkReader::new(&w6, max);
+                match guarded(|| Track::read_le(&mut rd).map_err(|e| e.to_string())) {
+                    Ok(Ok(back)) if &back == t => {},
+                    other => ctx.violation(
+                        format!("C14/roundtrip-chunked-reader/{name}"),
+                        format!("Track::{name} wire {} read {max} byte(s) at a time decodes to {:?}", hex(&wire), other),
+                        json!({"variant": name, "wire": hex(&wire), "bytes_per_read": max}),
+                    ),
+                }
+                let mut sink = crate::ioadapt::ShortSink::new(max);
+                match guarded(|| t.write_le(&mut sink).map_err(|e| e.to_string())) {
+                    Ok(Ok(())) if sink.inner.get_ref()[..] == w6 => {},
+                    other => ctx.violation(
+                        format!("C14/wire-short-writer/{name}"),
+                        format!("Track::{name} written {max} byte(s) at a time gives {} ({:?})", hex(sink.inner.get_ref()), other),
+                        json!({"variant": name, "bytes_per_write": max}),
+                    ),
+                }
+            }
             if let Some(prev) = wire_to_variant.insert(w6, name) {
                 ctx.violation(
                     format!("C14/wire-shared/{name}"),
